@@ -149,6 +149,63 @@ async fn server_fragmentation(rep: &mut Report, thorough: bool) {
     }
 }
 
+/// A send that FAILS for one datagram must not hurt the next ones. The target's port is closed when the first
+/// datagram is relayed (loopback answers with ICMP port-unreachable, which a connected UDP socket reports as
+/// ECONNREFUSED on a later call); then the target starts listening: every later datagram arrives exactly once, whole.
+/// (A datagram longer than UDP allows cannot come from a local application — the relay may end the association on it;
+/// that is C20's ground, not C15's.)
+async fn server_send_errors(rep: &mut Report) {
+    // reserve a port, then close it
+    let probe = UdpSocket::bind("127.0.0.1:0").await.unwrap();
+    let taddr = probe.local_addr().unwrap();
+    drop(probe);
+    let (st, feed, _out) = hand_stream(13);
+    let h = tokio::spawn(handle_udp_over_tcp(st));
+    let _ = feed.send(Bytes::from(initial_request(taddr)));
+    rep.case(Some("server side: target port closed for the first datagram"));
+    let lost = dgram(3000, 30);
+    let _ = feed.send(Bytes::from(framed(&lost)));
+    tokio::time::sleep(Duration::from_millis(150)).await;
+    let second_lost = dgram(3001, 31);
+    let _ = feed.send(Bytes::from(framed(&second_lost)));
+    tokio::time::sleep(Duration::from_millis(150)).await;
+    let Ok(target) = UdpSocket::bind(taddr).await else {
+        rep.observe("could not re-bind the reserved UDP port; send-error case skipped".to_string());
+        h.abort();
+        return;
+    };
+    let mut want = vec![];
+    for k in 0..4u32 {
+        let d = dgram(3100 + k, 40 + k as usize);
+        let _ = feed.send(Bytes::from(framed(&d)));
+        want.push(d);
+        tokio::time::sleep(Duration::from_millis(30)).await;
+    }
+    let mut got = vec![];
+    while let Some((d, _)) = recv_one(&target, 600).await {
+        got.push(d);
+        if got.len() > 8 {
+            break;
+        }
+    }
+    // the datagrams sent while the port was closed are legitimately gone; the first one sent afterwards may be
+    // consumed by the pending error report of a connected socket — but not more than that, and nothing is altered
+    let tail: Vec<Vec<u8>> = got.iter().filter(|d| want.contains(d)).cloned().collect();
+    let strays: Vec<usize> = got.iter().filter(|d| !want.contains(d) && **d != lost && **d != second_lost).map(|d| d.len()).collect();
+    if !strays.is_empty() {
+        rep.violation("C15:datagram-altered", &format!("server side, after a failed send: the target received datagrams of sizes {:?} that were never sent in that form", strays), json!({"engine": "SEMI", "side": "server", "case": "send-error"}));
+    }
+    if tail.len() + 1 < want.len() || (tail.len() < want.len() && tail != want[1..].to_vec()) {
+        rep.violation("C15:datagrams-lost-after-a-failed-send", &format!("server side: the target's port was closed for the first two datagrams (ICMP port-unreachable), then the target listened and 4 datagrams of sizes {:?} were sent: {:?} arrived", want.iter().map(|d| d.len()).collect::<Vec<_>>(), got.iter().map(|d| d.len()).collect::<Vec<_>>()), json!({"engine": "SEMI", "side": "server", "case": "send-error"}));
+    }
+    let mut seen = std::collections::HashSet::new();
+    if got.iter().any(|d| !seen.insert(d.clone())) {
+        rep.violation("C15:datagram-split-or-duplicated", "server side, after a failed send: a datagram arrived twice", json!({"engine": "SEMI", "side": "server", "case": "send-error"}));
+    }
+    drop(feed);
+    h.abort();
+}
+
 async fn server_sizes(rep: &mut Report, sizes: &[usize]) {
     let target = UdpSocket::bind("127.0.0.1:0").await.unwrap();
     let taddr = target.local_addr().unwrap();
@@ -695,6 +752,7 @@ pub fn run(tier: Tier) -> i32 {
     rt.block_on(async {
         server_fragmentation(&mut rep, thorough).await;
         server_sizes(&mut rep, &sizes).await;
+        server_send_errors(&mut rep).await;
         let csizes: Vec<usize> = if thorough { sizes.iter().copied().filter(|s| s % 3 == 1 || *s < 300 || *s > 65000).collect() } else { sizes.clone() };
         client_side(&mut rep, &csizes, thorough).await;
         concurrent_associations(&mut rep).await;
